@@ -72,8 +72,8 @@ def _sources():
     return [os.path.join(cbuild.CSRC, "drv_c08.c"), os.path.join(cbuild.FW, "layer1/tdma_sched.c")]
 
 
-def _build(b):
-    return cbuild.compile(b, "drv_c08", _sources(), cbuild.firmware_flags(b), opt="-O2")
+def _build(b, opt="-O2"):
+    return cbuild.compile(b, "drv_c08", _sources(), cbuild.firmware_flags(b), opt=opt)
 
 
 def _san_summary(err):
@@ -269,7 +269,8 @@ def replay(ctx, case):
     global _exe
     b = cbuild.builddir("c08r")
     try:
-        _exe = _build(b)
+        # a single case needs no optimised driver (the build is most of a replay's time); re-running a whole job does
+        _exe = _build(b, "-O2" if "hd_key" in case or case.get("token", "-") == "-" else "-O1")
         tok = case.get("token", "-")
         if "hd_key" in case:
             # history-dependent result: only the whole (deterministic) run shows it again
